@@ -23,6 +23,7 @@ RULE = ("instances of every exported class over presence patterns of their optio
         "list members (min / random / max profiles, sparse instances visited BEFORE full ones in one process), x every attribute name declared "
         "anywhere below the class x undefined names (random identifiers, list-method look-alikes, the dunders the stdlib probes); the 12 message-set "
         "classes and OFX with 0-4 statements / closing statements of each kind interleaved. A case = (class, seed, presence pattern)")
+RULE += " Added later: every other shard uses the base classes' class-level API first; the names under which a class declares repeated children (hasattr / getattr-default / plain read); copies of instances re-read from text."
 ASSUMPTIONS = ["UNSPECIFIED, accessed but not judged: names declared only by an ABSENT optional sub-aggregate; names declared by two or more present descendants; names that are list attributes",
                "model equality by modelwalk (exact); trnuid/cltcookie stapled onto statements by the .statements shortcut are not model children"]
 LEVEL_TEXT = ("Exploration: the proxy is five lines, but which object it returns depends on which optional sub-aggregates are present; every presence "
